@@ -368,6 +368,12 @@ func (n *networkService) ReleaseIP(ctx context.Context, r *rpc.ReleaseIPRequest)
 	}
 
 	if n.ipamType == types.IPAMTypeCRD || pod.IPStickTime == 0 {
+		// delete the record before the address goes back to the pool: once the pool has it, another pod may take it,
+		// and a daemon restarted in between would give it back to this pod by the record which is still on disk
+		err = n.deletePodResource(pod)
+		if err != nil {
+			return nil, fmt.Errorf("error delete pod resource: %w", err)
+		}
 		for _, resource := range oldRes.Resources {
 			res := parseNetworkResource(resource)
 			if res == nil {
@@ -380,10 +386,6 @@ func (n *networkService) ReleaseIP(ctx context.Context, r *rpc.ReleaseIPRequest)
 			if err != nil {
 				return nil, err
 			}
-		}
-		err = n.deletePodResource(pod)
-		if err != nil {
-			return nil, fmt.Errorf("error delete pod resource: %w", err)
 		}
 	}
 
